@@ -7,6 +7,7 @@ Families:
 """
 import itertools
 from fractions import Fraction
+import json
 from . import common
 from .common import Labels, fs, exc_name, canon_terms, snapshot
 
@@ -367,6 +368,13 @@ def oracle(case, canon, obj, log):
 
 # ------------------------------------------------------------------ driver of the check
 
+def tt_inside(c):
+    try:
+        return truth_table(c) is not None
+    except Exception:
+        return False
+
+
 def process(ctx, cases):
     lines = [model_line(c) for c in cases]
     impls = [run_impl(c) for c in cases]
@@ -378,7 +386,18 @@ def process(ctx, cases):
         ctx.count("gate:%s/%d" % (top["g"], len(top["args"])))
         mtruth = m.pop("truth", None) if isinstance(m, dict) else None
         if canon != m:
-            ctx.diff(c["family"], c, canon, m)
+            if (c.get("labels") == "xeq" and isinstance(m, dict) and "err" not in m and canon.get("err") == "KeyError"
+                    and tt_inside(c)):
+                # labels equal across types (0 / 0.0 / False are ONE variable): squash_key sorts a key by type name first and
+                # removes only adjacent duplicates, so a product such as (1.0, 0) * (0.0,) keeps three spellings of two
+                # variables and the degree-2 check of QUBO / QUBOMatrix raises KeyError although the expression has degree 2.
+                # The same defect as C05:equalfn:cross-type-equal-labels, seen from C07: the gate does not return a model.
+                ctx.violation("C07:xeq-degree-keyerror", c,
+                              "with labels that compare equal across types the gate raises KeyError on a QUBO-typed operand "
+                              "although the expression has degree <= 2 (the model, over variable identities, returns %s)" % (
+                                  json.dumps(m)[:200],))
+            else:
+                ctx.diff(c["family"], c, canon, m)
         tt = truth_table(c)
         if tt is None:
             ctx.count("scope:outside")
